@@ -60,6 +60,7 @@ def families(tier):
     add("fan_out", D["fan_out"], 0, 5)
     add("two_inputs_delay_first", D["two_inputs_delay_first"], 3, 4)
     add("two_dpull_inputs", D["two_dpull_inputs"], 3, 4)
+    add("a_p_two_links_dfix_b", D["a_p_two_links_dfix_b"], 3, 4)
     add("ring2_dfix", R["ring2_dfix"], 3, 5, delay_sum_ge_steps=True)
     add("ring2_dfix_dfix", R["ring2_dfix_dfix"], 0, 4, delay_sum_ge_steps=True)
     add("ring2_split_links", R["ring2_split_links"], 0, 4, delay_sum_ge_steps=True)
